@@ -6,18 +6,18 @@
 /// Check for `assertion`: ""column is bijective base-26 minus one""
 
 #[test]
-fn kani_concrete_playback_c01_q_a1_l1_d3_5799171051709090774() {
+fn kani_concrete_playback_c01_q_a1_l1_d3_17668018244861274265() {
     let concrete_vals: Vec<Vec<u8>> = vec![
         // 3
         vec![3],
         // 1
         vec![1],
-        // 2
-        vec![2],
-        // 0
-        vec![0],
-        // 0
-        vec![0],
+        // 4
+        vec![4],
+        // 9
+        vec![9],
+        // 9
+        vec![9],
     ];
     kani::concrete_playback_run(concrete_vals, c01_q_a1_l1_d3);
 }
@@ -27,18 +27,18 @@ fn kani_concrete_playback_c01_q_a1_l1_d3_5799171051709090774() {
 /// Check for `cover`: "end"
 
 #[test]
-fn kani_concrete_playback_c01_q_a1_l1_d3_16727422757966971660() {
+fn kani_concrete_playback_c01_q_a1_l1_d3_1421981538177185724() {
     let concrete_vals: Vec<Vec<u8>> = vec![
-        // 24
-        vec![24],
+        // 3
+        vec![3],
         // 0
         vec![0],
-        // 0
-        vec![0],
-        // 1
-        vec![1],
-        // 7
-        vec![7],
+        // 4
+        vec![4],
+        // 9
+        vec![9],
+        // 9
+        vec![9],
     ];
     kani::concrete_playback_run(concrete_vals, c01_q_a1_l1_d3);
 }
